@@ -35,6 +35,10 @@ func runC09(c *an.Ctx) {
 	r09j(c)
 	c.As(map[string]string{"R15f": "R09i"}, func() { r15f(c) })
 	r09k(c)
+	// round 8
+	r09l(c)
+	r09m(c)
+	c.As(map[string]string{"R02t": "R09n"}, func() { r02t(c) })
 }
 
 // R09g: a hook task counts as failed whenever it did not exit with code 0 - also when it was terminated by a signal
